@@ -494,8 +494,16 @@ def run(repo: Repo, chk: Check, thorough: bool = False) -> None:
     st_ = tr_cls.methods.get('starttag')
     if st_ is None:
         raise AnalysisError('R10.9: HTMLTranslator.starttag not found')
-    scheme = any(isinstance(c, ast.Constant) and isinstance(c.value, str) and 'javascript' in c.value.lower() for c in ast.walk(st_.node)) or \
-        any(isinstance(c, ast.Call) and call_name(c) in ('urlparse', 'urlsplit') for c in calls_in(st_))
+    # the check may sit in starttag or in visit_reference (both see every link of a docstring), directly or through a module-level helper they call
+    def _checks_scheme(g: Func, depth: int = 0) -> bool:
+        if any(isinstance(c, ast.Constant) and isinstance(c.value, str) and 'javascript' in c.value.lower() for c in ast.walk(g.node)) or \
+                any(isinstance(c, ast.Call) and call_name(c) in ('urlparse', 'urlsplit') for c in calls_in(g)):
+            return True
+        if depth >= 1:
+            return False
+        return any(_checks_scheme(h, depth + 1) for c in calls_in(g) if isinstance(c.func, ast.Name) for h in [repo.funcs.get(f'{g.mod.name}.{c.func.id}')] if h is not None)
+    vr_ = tr_cls.methods.get('visit_reference')
+    scheme = _checks_scheme(st_) or (vr_ is not None and _checks_scheme(vr_))
     chk.ob('R10.9', f'{TRANSLATOR}.starttag :: the scheme of an href taken from a docstring is checked', scheme,
            'script schemes are rejected' if scheme else
            'starttag() rewrites `#` anchors and adds target=_top but never looks at the scheme: the plain words `javascript:x()//y` in a reST docstring '
